@@ -16,7 +16,8 @@ func init() {
 		ID:    "C04",
 		Level: "exploration",
 		Rule: "every element type x channel counts 1..8 x parent capacities 0..33 frames x windows starting at frame 0 and at later frames (with and without spare capacity) x call counts {0,1,cap-1,cap,cap+1,3*cap+7, 10^4}; after every AppendSample the window, a full-capacity alias taken beforehand, the parent and the whole storage are compared with the reference model " +
-			"(value at position Len, Len+1, Length=ceil(Len/C), capacity and base address unchanged, no other cell changed); distinct = distinct (type,C,K,window,call index) tuples; non-trivial = the buffer has capacity > 0",
+			"(value at position Len, Len+1, Length=ceil(Len/C), capacity and base address unchanged, no other cell changed); distinct = distinct (type,C,K,window,call index) tuples; non-trivial = the buffer has capacity > 0; " +
+			"also: a sample refused before the buffer grew, windows cut after the parent was appended to, a window over nothing but the unwritten tail, the full buffer read out before the next append, one whole frame appended in bulk between two sample appends",
 		Assume: []string{"storage contents are re-read through the verif hook over the whole parent capacity"},
 		Plan:   func(tier string) []Batch { return split("appendsample", 8, 900) },
 		Run:    runC04,
